@@ -107,13 +107,13 @@ package cache
 // sizes, every stored entry has a metadata record, sizes are not negative.
 //@ spec func specMemInv(c ptr) bool = c.byteSize.val != nil && c.byteSize.val.v == mapsum(c.entries) && len(c.locks) >= 1 && len(c.locks) < 4294967296 && c.entries != nil && (forall k key :: in(c.entries, k) ==> c.entries[k] != nil && allocated(c.entries[k]) && c.entries[k].meta != nil && allocated(c.entries[k].meta) && c.entries[k].meta.Size >= 0)
 
-//@ props C12 C01 C14 C15 C16
+//@ props C12 C01 C14 C15 C16 C13
 //@ func MemoryCache.deleteInternal
 //@   ghost blocks-at 2
 //@   nopanic
 //@   ghost holds shard
 //@   requires specMemInv(c)
-//@   ensures [C12] specMemInv(c)
+//@   ensures [C12,C13] specMemInv(c)
 //@   ensures [C01] !in(c.entries, key)
 //@   ensures [C12] forall k key :: k != keyid(key) ==> in(c.entries, k) == old(in(c.entries, k)) && c.entries[k] == old(c.entries[k])
 //@   ensures result == nil <==> old(in(c.entries, key))
@@ -121,11 +121,11 @@ package cache
 //@   ensures [C12] old(mbytes == c.byteSize.val.v) ==> mbytes == c.byteSize.val.v
 //@   ensures [C12] old(mentries == len(c.entries)) ==> mentries == len(c.entries)
 
-//@ props C12 C01 C14 C15 C16
+//@ props C12 C01 C14 C15 C16 C13
 //@ func MemoryCache.Delete
 //@   nopanic
 //@   requires specMemInv(c)
-//@   ensures [C12] specMemInv(c)
+//@   ensures [C12,C13] specMemInv(c)
 //@   ensures [C01] !in(c.entries, key)
 //@   ensures [C12] old(mbytes == c.byteSize.val.v) ==> mbytes == c.byteSize.val.v
 //@   ensures [C12] old(mentries == len(c.entries)) ==> mentries == len(c.entries)
@@ -182,7 +182,7 @@ package cache
 // size is their number, and the metadata object is the one given; other keys
 // are untouched.  The representation invariant is kept on every path, also when
 // the key was already present (overwrite) and when the source reader fails.
-//@ props C12 C01 C09 C14 C15 C16
+//@ props C12 C01 C09 C14 C15 C16 C13
 //@ func MemoryCache.cacheInternal
 //@   ghost stable-if mbytes == c.byteSize.val.v
 //@   ghost stable-if mentries == len(c.entries)
@@ -193,7 +193,7 @@ package cache
 //@   ghost stable specMemInv(c) && c.janitor != nil && c.maxCacheSize.val != nil && c.byteSize.val.v < 4611686018427387904
 //@   requires specMemInv(c) && c.janitor != nil && c.maxCacheSize.val != nil
 //@   requires c.byteSize.val.v < 4611686018427387904      // the cache never holds 2^62 bytes: machine arithmetic assumption
-//@   ensures [C12] specMemInv(c)
+//@   ensures [C12,C13] specMemInv(c)
 //@   ensures [C01] result1 == nil ==> in(c.entries, key) && sid(c.entries[key].data) == old(readall(data)) && c.entries[key].meta.Size == old(readlen(data)) && c.entries[key].meta.Expires == expires && result0 != nil && result0.Metadata == c.entries[key].meta
 //@   ensures [C01] result1 == nil ==> readercontent(asptr(result0.Data, "memoryReadSeekCloser").Reader) == sid(c.entries[key].data)
 //@   ensures [C01] result1 != nil && !evictIfFull ==> (forall k key :: in(c.entries, k) == old(in(c.entries, k)) && c.entries[k] == old(c.entries[k]))
@@ -204,13 +204,13 @@ package cache
 //@   ensures [C12] old(mbytes == c.byteSize.val.v) ==> mbytes == c.byteSize.val.v
 //@   ensures [C12] old(mentries == len(c.entries)) ==> mentries == len(c.entries)
 
-//@ props C12 C01 C09 C14 C15 C16
+//@ props C12 C01 C09 C14 C15 C16 C13
 //@ func MemoryCache.Cache
 //@   implements Cache.Cache
 //@   nopanic
 //@   requires specMemInv(c) && c.janitor != nil && c.maxCacheSize.val != nil
 //@   requires c.byteSize.val.v < 4611686018427387904
-//@   ensures [C12] specMemInv(c)
+//@   ensures [C12,C13] specMemInv(c)
 //@   ensures [C01] result1 == nil ==> in(c.entries, key) && sid(c.entries[key].data) == old(readall(data)) && c.entries[key].meta.Size == old(readlen(data)) && result0 != nil && result0.Metadata == c.entries[key].meta
 //@   ensures [C12] old(mbytes == c.byteSize.val.v) ==> mbytes == c.byteSize.val.v
 //@   ensures [C12] old(mentries == len(c.entries)) ==> mentries == len(c.entries)
@@ -260,22 +260,22 @@ package cache
 //@   ensures [C12] (result == nil && old(fsexists(sid(path))) ==> mbytes == old(mbytes) - old(fssize(sid(path)))) && (!(result == nil && old(fsexists(sid(path)))) ==> mbytes == old(mbytes))
 //@   ensures [C12] (result == nil && old(fsexists(sid(path))) ==> mentries == old(mentries) - 1) && (!(result == nil && old(fsexists(sid(path)))) ==> mentries == old(mentries))
 
-//@ props C12 C01 C14 C15 C16
+//@ props C12 C01 C14 C15 C16 C13
 //@ func FileCache.ensureRemove
 //@   nopanic
 //@   ghost holds shard
 //@   requires specFileInv(c) && c.byteSize.val.v < 4611686018427387904
-//@   ensures [C12] specFileInv(c)
+//@   ensures [C12,C13] specFileInv(c)
 //@   ensures result == nil ==> !in(c.entriesMetadata, key)
 //@   ensures c.byteSize.val.v <= old(c.byteSize.val.v)
 //@   ensures [C12] old(mbytes == c.byteSize.val.v) ==> mbytes == c.byteSize.val.v
 //@   ensures [C12] old(mentries == len(c.entriesMetadata)) ==> mentries == len(c.entriesMetadata)
 
-//@ props C12 C01 C14 C15 C16
+//@ props C12 C01 C14 C15 C16 C13
 //@ func FileCache.Delete
 //@   nopanic
 //@   requires specFileInv(c) && c.byteSize.val.v < 4611686018427387904
-//@   ensures [C12] specFileInv(c)
+//@   ensures [C12,C13] specFileInv(c)
 //@   ensures result == nil ==> !in(c.entriesMetadata, key)
 //@   ensures [C12] old(mbytes == c.byteSize.val.v) ==> mbytes == c.byteSize.val.v
 //@   ensures [C12] old(mentries == len(c.entriesMetadata)) ==> mentries == len(c.entriesMetadata)
@@ -299,7 +299,7 @@ package cache
 // recorded size is their number; on any failure the previous entry of the key
 // (record and file content) is exactly as before.  Inodes that were already open
 // are never written: a store creates a new file and renames it into place.
-//@ props C12 C01 C09 C14 C15 C16
+//@ props C12 C01 C09 C14 C15 C16 C13
 //@ func FileCache.Cache
 //@   ghost stable-if mbytes == c.byteSize.val.v
 //@   ghost stable-if mentries == len(c.entriesMetadata)
@@ -307,7 +307,7 @@ package cache
 //@   nopanic
 //@   ghost stable specFileInv(c) && c.janitor != nil && c.maxCacheSize.val != nil && c.byteSize.val.v < 4611686018427387904
 //@   requires specFileInv(c) && c.janitor != nil && c.maxCacheSize.val != nil && c.byteSize.val.v < 4611686018427387904
-//@   ensures [C12] specFileInv(c)
+//@   ensures [C12,C13] specFileInv(c)
 //@   ensures [C01] result1 == nil ==> in(c.entriesMetadata, key) && fscontent(specFilePath(c, keyid(key))) == old(readall(data)) && c.entriesMetadata[key].Size == old(readlen(data)) && c.entriesMetadata[key].Expires == expires && result0 != nil && result0.Metadata == c.entriesMetadata[key] && handlecontent(result0.Data) == old(readall(data))
 //@   ensures [C01] forall h int :: old(allocated(h)) && old(handleinode(h)) != 0 ==> handleinode(h) == old(handleinode(h)) && icontent(handleinode(h)) == old(icontent(handleinode(h))) && isize(handleinode(h)) == old(isize(handleinode(h)))
 //@   ensures [C12] old(mbytes == c.byteSize.val.v) ==> mbytes == c.byteSize.val.v
@@ -388,6 +388,8 @@ package cache
 //@   ghost callsite-requires [C13] removeEntry jexp(arg_key) < now
 //@   loop 1 invariant len(keysToRemove) >= 0
 //@   loop 2 invariant rangeidx <= len(keysToRemove)
+// A busy entry is skipped, not the rest of the cycle: the removal loop visits every expired key.
+//@   loop 2 exhaustive [C13]
 // After a cycle the reported size is the counter.
 //@   ensures [C12] mbytes == jsize
 
@@ -400,6 +402,14 @@ package cache
 //@   nopanic
 //@   requires c != nil && c.maxCacheSize.val != nil
 //@   ensures [C19] c.maxCacheSize.val.v == newSize
+
+// The memory-budget listener computes and publishes the new cap under the cache's lock
+// (and reads it back only there).  The byte counter the limit is compared with is exact
+// after every store and removal (the [C12,C13] clauses below): eviction decisions rest on it.
+//@ props C15 C19 C16
+//@ func NewMemoryCache$2
+//@   nopanic
+//@   requires c != nil
 
 //@ props C19 C16
 //@ func NewMemoryCache$1
